@@ -99,3 +99,10 @@ claim('C15',
       'fixed point over the recursive-descent methods, and the literal tables (radix prefixes, NrDIGITS bounds, base-64 alphabet, escapes, '
       'suffixes) extracted from HIR patterns.',
       'census over the front-end call closure + CFG progress analysis + literal tables from HIR patterns')
+claim('C16',
+      'Decides table agreement between paired encoders/decoders and the wiring of exact conversions, not the round-trip equalities '
+      '(dependencies): hex digit classes vs encoder alphabet and even-length guard, identical base range and digit functions in '
+      'str_radix/int_radix with the sign emitted in front, FmtBase and format-flag tables with NInt forwarding the same formatting trait '
+      'in both representations, mutual coverage of JSON kinds, no untriaged panic site in any codec body, and sign-before-split, checked '
+      'exponent arithmetic and no leading-digit dropping in the exact decimal parser.',
+      'paired decision tables from HIR patterns/MIR constants + census + callee discipline')
